@@ -979,6 +979,18 @@ pub fn macros(cx: &mut Ctx) {
             5 => mcall(id("l"), "map", vec![id("x"), body, g.expr(&mut cx.rng, 1)]),
             _ => mcall(id("l"), "reduce", vec![id("y"), id("x"), body, lit(V::Int(0))]),
         };
+        // a step that mentions the accumulator can multiply its size per element (k mentions: k-fold; inside a macro over
+        // the list: n-fold): keep such folds short
+        let mut l = l;
+        if let T::MCall { f, args, .. } = &t {
+            if f == "reduce" {
+                let mut names = Vec::new();
+                crate::tree::ident_names(&args[2], &mut names);
+                if names.iter().any(|n| n == "y" || n == "p") {
+                    l.truncate(6);
+                }
+            }
+        }
         let mut c = cx.case(t);
         c.bind.insert("l".into(), V::List(l));
         c.bind.insert("y".into(), V::Int(cx.rng.range(0, 3)));
@@ -1308,7 +1320,14 @@ pub fn refs(cx: &mut Ctx) {
             let nedges = succ.iter().filter(|s| **s < n).count();
             let kinds_total = NEDGE.pow(nedges as u32);
             for kc in 0..kinds_total {
-                if nedges >= 2 && !cx.thorough && cx.rng.below(if nedges == 2 { 15 } else { 250 }) != 0 {
+                // every one-edge labelling; two- and three-edge labellings are sampled (16^3 labellings per graph, one child process each)
+                let rate = match (nedges, cx.thorough) {
+                    (2, false) => 15,
+                    (2, true) => 3,
+                    (_, false) => 250,
+                    (_, true) => 40,
+                };
+                if nedges >= 2 && cx.rng.below(rate) != 0 {
                     continue;
                 }
                 let mut kc0 = kc;
